@@ -110,6 +110,8 @@ def decoy_block():
                E('linked', E('storyID', text='N1'), E('storyID', text=UNKNOWN), E('itemID', text='n1'), E('itemID', text=UNKNOWN)),
                E('story', E('storyID', text='N2'), E('storySlug', text='decoy story'), E('item', E('itemID', text='n2'), E('itemSlug', text='decoy item')), E('p', text='decoy paragraph')),
                E('item', E('itemID', text='i1'), E('itemSlug', text='nested item')),
+               E('item', E('itemID', text='i2'), E('itemSlug', text='nested twin of an item that comes later in the story')),
+               E('story', E('storyID', text='B'), E('storySlug', text='nested twin of a story that comes later')),
                E('playlist', E('item', E('itemID', text='GFX1')), E('item', E('itemID', text='n1'))),
                E('roSlug', text='decoy slug'), E('StoryDuration', text='999'), E('p', text='(decoy note)'),
                # an element with the name of the completion record, and the message element names, where no search belongs
@@ -275,6 +277,11 @@ def merge_cases_item(n_max=4, max_src=2, para_layouts=PARA_LAYOUTS):
                 meta = dict(meta, cls=cls, n=n, para=pl)
                 yield {'ro': ro, 'msg': to_text(doc), 'meta': meta}
     yield from merge_cases_placeholder(max_src=min(max_src, 2))
+    # the addressed story holds, nested in the payload of its first item, elements named item / story with the IDs of
+    # real items / stories that come later: only the story's own children count
+    ro = to_text(make_ro(['A', 'B'], layout='decoys'))
+    for cls, doc, meta in item_level_messages(['A'], ITEM_IDS[:2], max_src=2):
+        yield {'ro': ro, 'msg': to_text(doc), 'meta': dict(meta, cls=cls, n=2, para='decoys')}
     # two stories share an ID: item operations address the first one only (the twin holds an item the first lacks)
     ro = to_text(make_ro(['A', 'B'], layout='dupstories'))
     for cls, doc, meta in item_level_messages(['A'], ITEM_IDS[:2] + ['twin-only'], max_src=1):
